@@ -55,14 +55,14 @@ TIERS = {
         QUANTA=[-2, -1, 0, 0.5, 1, 1.5, 2, 3],
         label='alphabet 7 values, sequence lengths <= 3, law grid 62 x 7 x 7'),
     'thorough': dict(
-        A=[-3, -1, -0.5, 0, 0.25, 1, 1.0, 2, 2.5, 4],
+        A=[-3, -0.5, 0, 0.25, 1, 1.0, 2, 2.5, 4],
         ARGS={1: [-3, -1, -0.5, 0, 0.25, 1, 2, 2.5, 4],
               2: [-3, -0.5, 0, 0.25, 1, 2, 2.5],
               3: [-0.5, 0, 1, 2.5], 4: [-0.5, 1, 2.5],
               5: [0, 2.5], 6: [0, 2.5]},
-        NAR_X=[0, 3, 6],
+        NAR_X=[1, 5],
         LEN1=[1, 2, 3, 4],
-        LEN2=[(3, 2), (2, 3), (1, 3), (3, 1), (2, 2), (4, 3)],
+        LEN2=[(3, 2), (2, 3), (1, 3), (3, 1)],
         LENN=[(3, 2), (2, 3), (2, 2)],
         CROSS=True,
         FULLMASK=True,
@@ -71,8 +71,8 @@ TIERS = {
         XI=list(range(-8, 9)),
         BOUNDS=[-2, -1.5, -1, 0, 0.5, 1, 1.5, 2, 2.0, 2.5, 3],
         QUANTA=[-2, -1, -0.5, 0, 0.25, 0.5, 1, 1.0, 1.5, 2, 2.5, 3],
-        label='alphabet 10 values, sequence lengths <= 4, '
-              'law grid 146 x 11 x 11'),
+        label='quick space + alphabet 9 values, sequence lengths <= 4, '
+              'law grid 146 x 11 x 12'),
 }
 
 FUNC = ['func', 'cfunc']
@@ -977,21 +977,52 @@ def cases_of(g, tier):
 # engine glue
 # ---------------------------------------------------------------------------
 
+def plan(tier):
+    """[(group, tiers whose value space is enumerated for it)].  The thorough
+    tier contains the quick space: every group is enumerated with the quick
+    alphabets first, then with its own (duplicates are skipped in `work`);
+    the thorough law grids are supersets of the quick ones by construction."""
+    gs = groups(tier)
+    if tier != 'thorough':
+        return [(g, [tier]) for g in gs]
+
+    def key(g):
+        return (g['a'], g['e'], g['op'], tuple(g['k']), g['ev'])
+    quick = {key(g): g for g in groups('quick') if g['p'] == 'lift'}
+    groups(tier)            # restore the unresolved list of this tier
+    out = []
+    for g in gs:
+        if g['p'] == 'law':
+            out.append((g, ['thorough']))
+        else:
+            both = quick.pop(key(g), None) is not None
+            out.append((g, ['quick', 'thorough'] if both else ['thorough']))
+    out += [(g, ['quick']) for g in quick.values()]
+    return out
+
+
 def work(job):
     acc = progenum.Acc(max_samples=2, max_outcomes=4000)
     E = env()
-    gs = groups(job['tier'])
-    for gi, g in enumerate(gs):
+    for gi, (g, tiers) in enumerate(plan(job['tier'])):
         if gi % job['of'] != job['shard']:
             continue
         acc.count('groups')
-        for case in cases_of(g, job['tier']):
-            dis, nontrivial, outcome = check_case(case)
-            for kind, exp, obs, detail in dis:
-                acc.violation(kind, case, exp, obs, detail,
-                              standalone=standalone(case))
-            acc.case(case, nontrivial=nontrivial, outcome=outcome)
-            acc.count('law_cases' if case['p'] == 'law' else 'lift_cases')
+        seen = set() if len(tiers) > 1 else None
+        for tier in tiers:
+            for case in cases_of(g, tier):
+                if seen is not None:
+                    k = core.canon(case['v'])
+                    if k in seen:
+                        continue
+                    seen.add(k)
+                dis, nontrivial, outcome = check_case(case)
+                for kind, exp, obs, detail in dis:
+                    acc.violation(kind, case, exp, obs, detail,
+                                  standalone=standalone(case, exp))
+                acc.case(case, nontrivial=nontrivial, outcome=outcome)
+                acc.count('law_cases' if case['p'] == 'law'
+                          else 'lift_cases')
     if job['shard'] == 0:
         acc.extra['unresolved_operators'] = sorted(set(E.unresolved))
     return acc.result()
@@ -999,7 +1030,7 @@ def work(job):
 
 def introspect(job):
     E = env()
-    gs = groups(job['tier'])
+    gs = [g for g, tiers in plan(job['tier'])]
     ops = {}
     for g in gs:
         if g['p'] == 'lift':
@@ -1025,11 +1056,68 @@ def replay(job):
             'outcome': outcome}
 
 
-def standalone(case):
+_HEAD = """import math, operator
+import sc3; sc3.init('nrt')
+from sc3.base import builtins as bi, utils as utl
+from sc3.base.functions import Function
+from sc3.base.stream import Routine, stream, embed
+from sc3.base.operand import Operand
+from sc3.seq.event import Rest
+from sc3.seq.pattern import pattern
+from sc3.synth.ugen import ChannelList
+
+@pattern
+def pvals(vals):
+    yield from vals
+
+def rout(vals):
+    def gen():
+        yield from vals
+    return Routine(gen)
+
+def func(vals):
+    return Function(lambda k: vals[k % len(vals)])
+
+"""
+
+
+def _operand_src(kind, vals):
+    v = list(vals)
+    if kind == 'num':
+        return repr(v[0])
+    if kind in ('opd', 'rest'):
+        return f"{'Operand' if kind == 'opd' else 'Rest'}({v[0]!r})"
+    if kind in ('func', 'rout'):
+        return f'{kind}({v!r})'
+    if kind in ('cfunc', 'crout'):
+        return f'+{kind[1:]}({v!r})'
+    if kind == 'pat':
+        return f'pvals({v!r})'
+    if kind == 'cpat':
+        return f'+pvals({v!r})'
+    if kind == 'clist':
+        return f'ChannelList({v!r})'
+    if kind == 'pclist':
+        return f'ChannelList({nest(v)!r})'
+    if kind == 'nclist':
+        n = nest(v)
+        items = [f'ChannelList({i!r})' if isinstance(i, list) else repr(i)
+                 for i in n]
+        return f"ChannelList([{', '.join(items)}])"
+    if kind == 'list':
+        return repr(v)
+    if kind == 'tuple':
+        return repr(tuple(v))
+    if kind == 'nlist':
+        return repr(nest(v))
+    return repr(nest(v, tuple))
+
+
+def standalone(case, exp=None):
     """Python source reproducing a case with sc3 imports only."""
-    head = ("import sc3; sc3.init('nrt')\n"
-            "from sc3.base import builtins as bi\n")
     if case['p'] == 'law':
+        head = ("import sc3; sc3.init('nrt')\n"
+                "from sc3.base import builtins as bi\n")
         law = case['law']
         if law == 'inv':
             return head + (f"x = {case['x']!r}\n"
@@ -1041,7 +1129,35 @@ def standalone(case):
         if law == 'mod':
             return head + f"print(bi.mod({case['a']!r}, {case['b']!r}))\n"
         return head + f"print(bi.{law}({case['x']!r}, {case['q']!r}))\n"
-    return None
+    args = [_operand_src(k, v) for k, v in zip(case['k'], case['v'])]
+    e, op = case['e'], case['op']
+    if e == 'bi':
+        call = f"bi.{op}({', '.join(args)})"
+    elif e == 'meth':
+        call = f"({args[0]}).{op}({', '.join(args[1:])})"
+    elif e == 'py':
+        base = op
+        if base.startswith('__r') and base not in (
+                '__round__', '__rshift__'):
+            base = '__' + base[3:]
+        fn = {'__round__': 'round', '__trunc__': 'math.trunc',
+              '__ceil__': 'math.ceil', '__floor__': 'math.floor'}.get(
+                  base, 'operator.' + base)
+        call = f"{fn}({', '.join(args)})"
+    else:
+        f = {1: 'list_unop', 2: 'list_binop'}.get(len(args), 'list_narop')
+        call = f"utl.{f}({op}, {', '.join(args)})"
+    fam = result_family(case['k'])
+    if fam == 'func':
+        show = 'print([res(k) for k in range(3)])'
+    elif fam == 'strm' and case.get('ev') == 'embed':
+        show = 'print(list(embed(res)))'
+    elif fam == 'strm':
+        show = 'print(list(stream(res)))'
+    else:
+        show = 'print(res)'
+    tail = f'# expected outcomes: {exp!r}\n' if exp is not None else ''
+    return _HEAD + f'res = {call}\n{show}\n' + tail
 
 
 # ---------------------------------------------------------------------------
